@@ -52,7 +52,7 @@ Step ==
                 /\ inrib' = IF Ev.from = "rib" THEN inrib \cup {Ev.p} ELSE inrib
      \/ Ev.ev = "inv" /\ DoInvoke(Ev.p, Ev.opi) /\ UNCHANGED <<prog, rib, fib, strat, inrib>>
      \/ Ev.ev = "ret" /\ DoReturn(Ev.p, Ev.opi) /\ UNCHANGED <<prog, rib, fib, strat, inrib>>
-     \/ Ev.ev = "final" /\ Observe /\ UNCHANGED <<prog, hist, allowed, ph, pc, inrib>>
+     \/ Ev.ev \in {"final", "hfinal"} /\ Observe /\ UNCHANGED <<prog, hist, allowed, ph, pc, inrib>>
      \/ Ev.ev = "bad" /\ UNCHANGED <<prog, rib, fib, strat, hist, allowed, ph, pc, inrib>>
 TSpec == TInit /\ [][Step]_tvars
 HiWater == TLCSet(7, IF TLCGet(7) < hi THEN hi ELSE TLCGet(7))
@@ -70,5 +70,12 @@ I_C16virt == Obs => /\ NoDup(Last.fib)
                     /\ \A n \in ProbeNames : Lpm(fib, n) \in { Lpm(AbsFib(h.a), n) : h \in hist }
                     /\ \A n \in ProbeNames : LpmS(strat, n) \in { LpmS(h.a.st, n) : h \in hist }
 I_C16final == (hi > 0 /\ Last.ev = "final") => \E h \in hist : h.a.rib = rib /\ h.a.st = strat /\ AbsFib(h.a) = fib
+\* the hammer's quiescent state (no history kept): every prefix with routes forwards exactly as its routes prescribe, nothing
+\* else is in the FIB (but directly added entries on /d), and a face that went down through the face table is gone from both tables
+I_C16quiet == (hi > 0 /\ Last.ev = "hfinal") =>
+                 /\ \A q \in RibPrefixes(rib) : Get(fib, q) = Target(rib, q)
+                 /\ \A q \in DOMAIN fib : q \in RibPrefixes(rib) \/ q = <<"d">>
+                 /\ NoDup(Last.fib)
+                 /\ \A g \in ToSet(Last.removed) : (\A r \in rib : r.f # g) /\ (\A q \in DOMAIN fib : g \notin fib[q])
 I_C16safe == (hi > 0) => Last.ev # "bad"
 ====
